@@ -540,7 +540,7 @@ def run_crash_case(case: dict) -> dict:
             if at is not None and not crashed and 0 <= at - done < 14:
                 k = at - done
             pub_before = len(env.pub)
-            r = env.deliver(rid, crash_at=k, on_commit=on_commit)
+            r = env.deliver(rid, crash_at=k, on_commit=on_commit, in_thread=bool(case.get("thread")))
             inv = {"handler": rtype, "row": rid, "crashed": bool(r.get("crashed")), "exception": r.get("exception"),
                    "steps": [], "commits": []}
             if r.get("crashed"):
@@ -659,6 +659,11 @@ def crash_cases(rng: random.Random, tier: str) -> list[dict]:
         for k in range(0, 14 if thorough else 6):
             add(name=n, spec=fam[n], at=None, fault=("exc", k))
             add(name=n, spec=fam[n], at=None, fault=("cas", k))
+            # the same faults with every delivery on a fresh worker thread: each completion's event append is then the
+            # first use of that thread's connections (schema / pragma set-up on first use must not end the open transaction)
+            add(name=n, spec=fam[n], at=None, fault=("exc", k), thread=True)
+        for at in range(0, 140 if thorough else 60, 3):
+            add(name=n, spec=fam[n], at=at, thread=True)
         for c in (range(1, 20, 2) if thorough else (3, 7, 11)):
             add(name=n, spec=fam[n], at=None, cancel_at=c)
             add(name=n, spec=fam[n], at=c * 3, cancel_at=c)
